@@ -17,6 +17,8 @@ def pipelines():
     add('map.batch(3)', lambda d: d.batch(3))
     add('map.batch(3)[1:]', lambda d: d.batch(3)[1:])
     add('map.batch(4,drop_last)', lambda d: d.batch(4, drop_last=True))
+    add('map.batch(5,drop_last)', lambda d: d.batch(5, drop_last=True))
+    add('map.batch(5,drop_last).batch(2)', lambda d: d.batch(5, drop_last=True).batch(2))
     add('map.concatenate(map)', lambda d: d.concatenate(d))
     add('map.zip(map)', lambda d: d.zip(d))
     add('map.items()', lambda d: d.items())
@@ -88,6 +90,22 @@ def search(tier='quick'):
                 if sorted(log) != sorted(ref[i]):
                     fails.append({'scenario': '%s[%d]' % (name, i), 'mismatches': [
                         {'clause': 'point-demand', 'observed': 'function applied to %r' % sorted(log), 'expected': repr(sorted(ref[i]))}]})
+                    return cases, fails
+            # an index outside the offered range is refused and evaluates nothing (F29: the dropped tail of batch(drop_last))
+            for i in (len(ref), -len(ref) - 1):
+                cases += 1
+                del log[:]
+                try:
+                    got = ds[i]
+                    outcome = 'value %r' % (got,)
+                except IndexError:
+                    outcome = 'IndexError'
+                except Exception as e:      # noqa
+                    outcome = type(e).__name__
+                if outcome != 'IndexError' or log:
+                    fails.append({'scenario': '%s[%d] (outside the %d results)' % (name, i, len(ref)), 'mismatches': [
+                        {'clause': 'point-demand-out-of-range', 'observed': '%s, function applied to %r' % (outcome, sorted(log)),
+                         'expected': 'IndexError, no application'}]})
                     return cases, fails
     return cases, fails
 
